@@ -7,7 +7,9 @@ used as a context manager (C07.c); timeout only after continuous failure (C07.d)
 semaphore visits all n slots modulo n and gives up only after n tries (C07.e); stale lock
 removal never undercuts the lock timeout (C07.f).
 Added in round 4: the sweep of the lock directory tolerates lock files that are released while it
-looks at them (C07.i, shared C08.f)."""
+looks at them (C07.i, shared C08.f).
+Added in round 7: the seed cache lock reads its whole queue before the cursor is re-used, and the caller's
+own entry grants the lock only with no live entry before it (C07.j, repair D52)."""
 import ast
 
 from ..engine import rule
@@ -494,3 +496,53 @@ def c07i(ctx):
     for o in sub.obs:
         (ctx.ok if o.status == 'ok' else ctx.bad)('%s:%s' % (o.rule, o.construct), o.msg, o.where)
     ctx.stats['functions'] |= sub.stats['functions']
+
+
+@rule('C07.j', floor=3)
+def c07j(ctx):
+    """the seed cache lock decides over the *whole* queue: _poll looks at every entry in front of the caller.  The entries are read
+    before anything re-uses the cursor -- removing the entry of a dead process executes a statement on the cursor, and a loop that
+    iterates over the cursor itself ends right there: entries of live processes further down are never seen and the caller enters
+    next to them (D52).  And the caller's own entry means "my turn" only while no live entry was seen before it"""
+    CL = 'mapproxy/seed/cachelock.py'
+    po = ctx.fn(CL + ':CacheLocker._poll')
+    cur = po.params[1]
+    loops = [x for x in po.walk() if isinstance(x, (ast.For, ast.comprehension))]
+    over_queue = []
+    for lp in loops:
+        it = lp.iter
+        direct = isinstance(it, ast.Name) and it.id == cur or (is_call(it, 'iter') and it.args and same(it.args[0], cur))
+        snapshot = (is_call(it, cur + '.fetchall') or (is_call(it, 'list', 'tuple', 'sorted') and it.args and
+                    (same(it.args[0], cur) or is_call(it.args[0], cur + '.fetchall'))))
+        if not snapshot and isinstance(it, ast.Name):
+            d = [s for s in po.walk() if isinstance(s, ast.Assign) and same(s.targets[0], it.id)]
+            snapshot = bool(d) and all(is_call(s.value, cur + '.fetchall') or (is_call(s.value, 'list', 'tuple') and s.value.args and
+                                       same(s.value.args[0], cur)) for s in d)
+        if direct or snapshot:
+            over_queue.append((lp, direct))
+    if not over_queue:
+        raise Undecided('CacheLocker._poll: loop over the lock entries not found')
+    for lp, direct in over_queue:
+        body = lp.body if isinstance(lp, ast.For) else []
+        reuse = [x for st in body for x in ast.walk(st) if isinstance(x, ast.Name) and x.id == cur and isinstance(x.ctx, ast.Load)]
+        ctx.check(not (direct and reuse), 'CacheLocker._poll:queue-read-before-cursor-reuse',
+                  'the entries are fetched (fetchall/list) before the loop body executes statements on the cursor', po, lp,
+                  fail='_poll iterates over the cursor and re-uses it inside the loop (%s): the first removed entry ends the iteration and '
+                       'live entries behind it are not seen' % unparse(getattr(reuse[0], '_parent', reuse[0]))[:50] if reuse else '')
+    g = po.cfg
+    mine = g.find_stmts(lambda s: isinstance(s, ast.Return) and const_value(s.value, 1) is True)
+    inloop = [n for n in mine if enclosing(g.stmt[n], ast.For) is not None]
+    if not inloop:
+        raise Undecided('CacheLocker._poll: the "my turn" return inside the loop was not found')
+    flags = {unparse(s.targets[0]) for s in po.walk() if isinstance(s, ast.Assign) and const_value(s.value, 1) is True and
+             isinstance(s.targets[0], ast.Name)}
+    noact = lambda at: at.op is None and unparse(at.expr) in flags
+    for n in inloop:
+        ctx.check(g.guarded(n, noact, False), 'CacheLocker._poll:my-turn-only-without-live-entry-before',
+                  'the own entry grants the lock only if no live entry came before it', po, g.stmt[n],
+                  fail='_poll grants the lock at the caller\'s own entry although a live entry may precede it')
+    sets = g.find_stmts(lambda s: isinstance(s, ast.Assign) and unparse(s.targets[0]) in flags and const_value(s.value, 1) is True)
+    alive = lambda at: at.op is None and is_call(at.expr, 'is_running')
+    ctx.check(bool(sets) and all(g.guarded(n, alive, True) for n in sets), 'CacheLocker._poll:live-entry-recorded',
+              'every entry whose process is running is recorded as a live entry', po,
+              fail='_poll does not record live entries')
